@@ -67,7 +67,18 @@ type Report struct {
 	TotalPoints int64
 }
 
+// scratch holds per-execution buffers that are reused from one execution to the next.
+type scratch struct {
+	objs    objTab
+	choices []int32
+	points  []pointRec
+	costs   []uint8
+	log     []Event
+	threads []*Thread
+}
+
 type Explorer struct {
+	scr      scratch
 	sc       *Scenario
 	opt      Options
 	rep      *Report
@@ -89,6 +100,7 @@ func Explore(sc *Scenario, opt Options) *Report {
 	start := time.Now()
 	// determinism self-check on the default schedule
 	a := e.run(nil, false, 0, 0, nil)
+	a.Log = append([]Event(nil), a.Log...)
 	b := e.run(nil, false, 0, 0, nil)
 	if a.fp != b.fp || !sameLog(a.Log, b.Log) {
 		e.rep.Nondet = fmt.Sprintf("default schedule not reproducible: fp %x vs %x; logs %v vs %v", a.fp, b.fp, logStrings(a.Log), logStrings(b.Log))
@@ -109,7 +121,11 @@ func Explore(sc *Scenario, opt Options) *Report {
 			e.db = pb
 		}
 		if !opt.NoCache {
-			e.cache = newStateCache()
+			if e.cache == nil {
+				e.cache = newStateCache()
+			} else {
+				e.cache.clear()
+			}
 		}
 		e.explore(nil)
 		if e.cache != nil {
@@ -133,6 +149,7 @@ func Explore(sc *Scenario, opt Options) *Report {
 		ok := true
 		for i := 0; i < 3; i++ {
 			x := e.run(f.Choices, true, 1000, 1000, nil)
+			x.Log = append([]Event(nil), x.Log...)
 			if first == nil {
 				first = x
 			} else if x.fp != first.fp || !sameLog(x.Log, first.Log) {
@@ -214,7 +231,7 @@ func (e *Explorer) explore(prefix []int32) {
 		e.rep.CapHit = "deadline"
 		return
 	}
-	rc := runCopy{points: x.points, costs: x.costs, choices: x.choices}
+	rc := runCopy{points: append([]pointRec(nil), x.points...), costs: append([]uint8(nil), x.costs...), choices: append([]int32(nil), x.choices...)}
 	x = nil
 	for i := len(rc.points) - 1; i >= len(prefix); i-- {
 		p := rc.points[i]
@@ -292,10 +309,17 @@ func (e *Explorer) run(prefix []int32, trace bool, pb, db int, cache *stateCache
 		hz = 20000
 	}
 	ex := &Exec{prefix: prefix, pbMax: pb, dbMax: db, horizon: hz, cache: cache, useHB: true, TraceOn: trace}
+	// reuse the previous execution's buffers (the caller has copied what it keeps)
+	sc := &e.scr
+	sc.objs.reset()
+	ex.objs = sc.objs
+	ex.choices, ex.points, ex.costs, ex.Log, ex.threads = sc.choices[:0], sc.points[:0], sc.costs[:0], sc.log[:0], sc.threads[:0]
 	for _, h := range execStartHooks {
 		h(ex)
 	}
 	runExec(ex, e.sc.Body)
+	sc.objs = ex.objs
+	sc.choices, sc.points, sc.costs, sc.log, sc.threads = ex.choices, ex.points, ex.costs, ex.Log, ex.threads
 	return ex
 }
 
